@@ -7,6 +7,7 @@
 import MocVerif.Lemmas.ST
 import MocVerif.Lemmas.Consistent2D
 import MocVerif.Lemmas.FlatNormal
+import MocVerif.Lemmas.STBuilder
 
 namespace Moc.C09
 
@@ -93,5 +94,33 @@ theorem range2d_path_entries_order_independent (a b : FlatST)
 theorem make_consistent_counterexample :
     obsB [((10, 20), (0, 4)), ((0, 5), (8, 12))] 7 1 = false ∧
     obsB [((10, 20), (0, 4)), ((0, 5), (8, 12))] 2 9 = true := by decide
+
+/-! ### The streaming builder on (time cell, space cell) observations: what one buffer becomes -/
+section Buffer
+open Moc.STBuilder
+
+/-- **A drained buffer represents exactly its observations**: the elements `buff_to_moc` builds from a buffer
+    of `(time cell, space cell)` observations — the space cells of one time cell gathered, consecutive time
+    cells with the same coverage grouped — cover a pair `(t, s)` if and only if it was pushed, whatever the
+    order, the duplicates and the number of observations. -/
+theorem buffer_elements_exact (buf : List (Nat × Nat)) (t s : Nat) :
+    InElems (buffToElems buf) t s ↔ (t, s) ∈ buf :=
+  buffToElems_sem buf t s
+
+/-- The intermediate groups hold one entry per time cell, in increasing order, and two consecutive elements
+    never carry the same space coverage (the form the library's other constructors produce). -/
+theorem buffer_elements_canonical (buf : List (Nat × Nat)) :
+    STBuilder.SortedFrom 0 (groups buf) ∧ Alternating (buffToElems buf) :=
+  ⟨groups_sorted buf, mergeRuns_alternating _⟩
+
+/-- The result does not depend on the order of the pushes nor on repetitions (same set of observations,
+    same covered pairs). -/
+theorem buffer_elements_order_independent (b1 b2 : List (Nat × Nat)) (h : ∀ o, o ∈ b1 ↔ o ∈ b2) (t s : Nat) :
+    InElems (buffToElems b1) t s ↔ InElems (buffToElems b2) t s := by
+  rw [buffToElems_sem, buffToElems_sem]; exact h (t, s)
+
+example : buffToElems [(5, 3), (2, 3), (2, 1), (5, 3), (6, 3), (9, 1)] = [([2], [1, 3]), ([5, 6], [3]), ([9], [1])] := by decide
+
+end Buffer
 
 end Moc.C09
